@@ -49,7 +49,7 @@ def length_guard(ctx, rule, root, cfg="A"):
                         if any(p == kpre or p.startswith(kpre + ".") for p in Q.params(Q.leaves(a))):
                             return True
         return False
-    touched = [e for e in Q.calls(eng, None) if e["local"] and e["frame"] == fr.key and touches_key(e)]
+    touched = [e for e in Q.calls(eng, None) if e["local"] and e["home"] == fr.key and touches_key(e)]
     okall = bool(touched)
     bad = []
     for e in touched:
